@@ -26,6 +26,10 @@
 #include "ares_private.h"
 #include "ares_event.h"
 
+#ifdef HAVE_LIMITS_H
+#  include <limits.h>
+#endif
+
 #ifdef CARES_THREADS
 static void ares_event_destroy_cb(void *arg)
 {
@@ -355,8 +359,15 @@ static void *ares_event_thread(void *arg)
 
     tvout = ares_timeout(e->channel, NULL, &tv);
     if (tvout != NULL) {
-      timeout_ms =
-        (unsigned long)((tvout->tv_sec * 1000) + (tvout->tv_usec / 1000) + 1);
+      /* The event backends take the timeout as an int number of milliseconds.
+       * Waking up early is harmless (the timeout is recomputed on every
+       * iteration), an overflowed or negative value is not. */
+      if (tvout->tv_sec >= (INT_MAX / 1000) - 1) {
+        timeout_ms = (unsigned long)INT_MAX;
+      } else {
+        timeout_ms = (unsigned long)((tvout->tv_sec * 1000) +
+                                     (tvout->tv_usec / 1000) + 1);
+      }
     }
 
     CARES_VERIF_TRACE("wait", timeout_ms, tvout != NULL);
